@@ -281,12 +281,20 @@ impl ConfigOptions {
         }
 
         // validate chunker parameters
-        if matches!(config.chunker(), Chunker::Rabin) {
-            check_rabin_params(
+        match config.chunker() {
+            Chunker::Rabin => check_rabin_params(
                 config.chunk_size(),
                 config.chunk_min_size(),
                 config.chunk_max_size(),
-            )?;
+            )?,
+            Chunker::FixedSize => {
+                if config.chunk_size() == 0 {
+                    return Err(RusticError::new(
+                        ErrorKind::Unsupported,
+                        "Chunk size must not be 0 for the fixed size chunker.",
+                    ));
+                }
+            }
         }
 
         if let Some(compression) = self.set_compression {
